@@ -273,7 +273,7 @@ func describeDeliveries(ds []delivery) []string {
 
 func freeAddrs(c *caseCtx, n int) []string {
 	// inside the private network namespace every port is ours; derive them from the case number
-	base := 20000 + (c.n%2000)*8
+	base := 10000 + (c.n%2500)*8 // (below the ephemeral port range)
 	var out []string
 	for i := 0; i < n; i++ {
 		out = append(out, fmt.Sprintf("127.0.0.1:%d", base+i))
